@@ -23,7 +23,9 @@ where
         start_state: StIdx<StorageT>,
         edges: Vec<HashMap<Symbol<StorageT>, StIdx<StorageT>>>,
     ) -> Self {
-        assert!(states.len() < num_traits::cast(StorageT::max_value()).unwrap());
+        if states.len() >= num_traits::cast(StorageT::max_value()).unwrap() {
+            panic!("StorageT is not big enough to store this stategraph.");
+        }
         StateGraph {
             states,
             start_state,
